@@ -208,11 +208,13 @@ class RefExecutor:
             exec(compile(source, filename, 'exec'), self.ns)
         return self._guarded(thunk, fault)
 
-    def call(self, fn, args=(), kwargs=None, fault=None, args_locals=None):
-        kwargs = kwargs or {}
+    def call(self, fn, args=(), kwargs=None, fault=None, args_locals=None, kwargs_locals=None):
+        kwargs = dict(kwargs or {})
 
         def thunk():
             a = list(args)
+            for key, expr in (kwargs_locals or {}).items():
+                kwargs[key] = eval(compile(expr, '<ref-kwarg>', 'eval'), self.ns)
             for i, expr in enumerate(args_locals or []):
                 if expr is not None:
                     # args_locals: the argument is an expression evaluated in the student's namespace
